@@ -492,6 +492,8 @@ class VerifyResult(object):
         self.paths = 0
         self.explore_s = 0.0
         self.opaque_paths = 0
+        self.loop_outcomes = []
+        self.loop_paths = 0
 
 
 def verify(prog, qual, build, spec, light=False, inline=None, name=None, max_paths=20000, time_budget_s=600,
@@ -553,6 +555,8 @@ def verify(prog, qual, build, spec, light=False, inline=None, name=None, max_pat
                 ob.path_id = i
                 res.obligations.append(ob)
             res.loop_paths = getattr(res, 'loop_paths', 0) + 1
+            o.path_id = i
+            res.loop_outcomes.append(o)
             continue
         res.paths += 1
         o.path_id = i
